@@ -3,6 +3,7 @@ package props
 import (
 	"bytes"
 	"context"
+	"crypto/tls"
 	"encoding/json"
 	"fmt"
 	"strings"
@@ -88,6 +89,11 @@ func (c12) Plan(tier string, seed uint64) []core.Case {
 	}
 	for i := 0; i < nRand; i += 20 {
 		add("random", map[string]interface{}{"n": 20, "big": i%100 == 0}, core.Derive(seed, 1, uint64(i)).Uint64())
+	}
+	// the sender closes right after its last envelope and everything, the TLS close alert included, reaches the
+	// receiver at once (TLS 1.2 and 1.3 report the end of the stream differently)
+	for _, v := range []string{"1.2", "1.3"} {
+		add("tlsclose", map[string]interface{}{"version": v, "n": 6}, core.Derive(seed, 3, uint64(len(v))).Uint64())
 	}
 	for i := 0; i < nTLS; i += 10 {
 		add("tls", map[string]interface{}{"n": 10}, core.Derive(seed, 2, uint64(i)).Uint64())
@@ -213,15 +219,15 @@ func c12smallStream(n int) c12stream {
 }
 
 type c12plan struct {
-	name      string
-	rp        faultconn.ReadPlan
-	wp        faultconn.WritePlan
-	cutAt     int64 // -1 none
-	coalesce  bool
-	capacity  int
-	tls       bool
-	bidir     bool
-	nontriv   bool
+	name     string
+	rp       faultconn.ReadPlan
+	wp       faultconn.WritePlan
+	cutAt    int64 // -1 none
+	coalesce bool
+	capacity int
+	tls      bool
+	bidir    bool
+	nontriv  bool
 }
 
 type c12run struct {
@@ -689,6 +695,8 @@ func (p c12) Run(c core.Case) core.Result {
 		for call := 0; call < 40; call++ {
 			exec(st, nil, c12plan{name: "readtimeout", rp: faultconn.ReadPlan{Chunk: 16, TimeoutAtCall: []int{call, call + 1}}, wp: faultconn.WritePlan{FailAt: -1}, cutAt: -1, nontriv: true})
 		}
+	case "tlsclose":
+		p.tlsClose(&r, c)
 	case "random", "tls":
 		rng := core.NewRng(c.Seed)
 		for i := 0; i < c.Int("n", 10); i++ {
@@ -815,4 +823,78 @@ func countErrs(errs []error) int {
 		}
 	}
 	return n
+}
+
+// tlsClose: k envelopes, then the sender closes its transport; the receiver starts reading only when all of it (data
+// records and the close alert) has arrived. Every envelope must be handed over before the end of the stream is reported.
+func (p c12) tlsClose(r *core.Result, c core.Case) {
+	rng := core.NewRng(c.Seed)
+	ver := c.Str("version", "1.3")
+	for round := 0; round < c.Int("n", 6); round++ {
+		ccfg := rig.ClientTLS()
+		if ver == "1.2" {
+			ccfg.MaxVersion = tls.VersionTLS12
+		}
+		tp := rig.NewTransportPair(faultconn.Options{}, &lime.TCPConfig{TLSConfig: ccfg}, &lime.TCPConfig{TLSConfig: rig.ServerTLS()})
+		ctx, cancel := context.WithTimeout(context.Background(), 20*time.Second)
+		var wg sync.WaitGroup
+		var e1, e2 error
+		wg.Add(2)
+		go func() { defer wg.Done(); e1 = tp.A.SetEncryption(ctx, lime.SessionEncryptionTLS) }()
+		go func() { defer wg.Done(); e2 = tp.B.SetEncryption(ctx, lime.SessionEncryptionTLS) }()
+		wg.Wait()
+		if e1 != nil || e2 != nil {
+			cancel()
+			tp.Close()
+			r.Verdict = core.Inconclusive
+			r.Note = fmt.Sprintf("tls setup: %v / %v", e1, e2)
+			return
+		}
+		k := 1 + rng.Intn(5)
+		st := c12mkStream(gen.New(rng.Uint64()), k, nil)
+		tp.CB.Hold()
+		sendOK := 0
+		for _, e := range st.envs {
+			if sendAny(ctx, tp.A, e) == nil {
+				sendOK++
+			}
+		}
+		closed := make(chan struct{})
+		go func() { _ = tp.A.Close(); close(closed) }()
+		// the close alert is on its way once the sender's connection reports its writing side closed
+		for i := 0; i < 2000 && !tp.CB.PeerClosed(); i++ {
+			time.Sleep(200 * time.Microsecond)
+		}
+		tp.CB.Release()
+		got := 0
+		var rerr error
+		for got < k+1 {
+			env, err := tp.B.Receive(ctx)
+			if err != nil {
+				rerr = err
+				break
+			}
+			if got < k {
+				if ok, where := gen.Eq(st.envs[got], env); !ok {
+					r.Violate("C12/tlsclose/not-equal", fmt.Sprintf("TLS %s, %d envelopes then close: envelope #%d differs at %s", ver, k, got, where))
+				}
+			}
+			got++
+		}
+		cancel()
+		r.Evals++
+		r.Count("runs", 1)
+		r.Count("tlsclose_runs", 1)
+		r.Count("envelopes_acknowledged", sendOK)
+		r.Count("envelopes_received", got)
+		if got < sendOK {
+			r.Violate("C12/tlsclose/lost-before-close", fmt.Sprintf("TLS %s: the sender reported %d envelopes as sent and closed; the receiver (reading after everything had arrived) was handed %d and then %v", ver, sendOK, got, rerr))
+		}
+		if got > k {
+			r.Violate("C12/tlsclose/fabricated", fmt.Sprintf("TLS %s: %d envelopes sent, %d received", ver, k, got))
+		}
+		_ = tp.B.Close()
+		<-closed
+		r.Fingerprints = append(r.Fingerprints, fmt.Sprintf("tlsclose|%s|%d", ver, k))
+	}
 }
